@@ -73,7 +73,7 @@ func C03Location(c *Ctx) {
 	}
 	minLen := map[string]int{"0200": 28, "0704": 31, "0801": 36}
 
-	nseq := 0
+	nseq, nhang := 0, 0
 	one := func(kind string, body []byte, what string) {
 		req := "p" + kind + " " + Hx(body)
 		ans := c.Do(req, len(body) >= minLen[kind])
@@ -81,6 +81,15 @@ func C03Location(c *Ctx) {
 		if ans == "panic" {
 			c.Violate(Violation{Signature: "C03/location-panic-" + kind, What: "Parse or String panicked on an exact-capacity body",
 				Input: req, Observed: ans, Required: "ok ... or err"})
+		}
+		if ans == "hang" { // the ops run under the watchdog (lib.C03GuardOps)
+			nhang++
+			c.Violate(Violation{Signature: "C03/hang/location-" + kind, What: "Parse did not return (call abandoned)",
+				Input: req, Observed: ans, Required: "returns promptly"})
+			return
+		}
+		if nhang > 3 {
+			return
 		}
 		for _, tail := range [][]byte{tailA, tailB, tailC} {
 			if a2 := LocParse(kind, body, tail); a2 != ans {
@@ -169,6 +178,23 @@ func C03Location(c *Ctx) {
 					it := body
 					b := binary.BigEndian.AppendUint16([]byte{0, 1, 0}, uint16(len(it)))
 					one("0704", append(b, it...), "tlv")
+				}
+			}
+		}
+	}
+	// item lengths 41..255 (the uint8 boundary included) with exactly that many bytes present, one fewer, one more
+	for _, id := range []int{0x01, 0x05, 0x64, 0x66, 0xE1, 0xEB} {
+		for n := 41; n <= 255; n++ {
+			if quick && n%4 != 0 && n < 248 {
+				continue
+			}
+			for _, e := range []int{0, -1, 1} {
+				content := make([]byte, n+e)
+				rng.Read(content)
+				body := append(append(randBlock(), byte(id), byte(n)), content...)
+				one("0200", body, "tlv-long")
+				if e == 0 {
+					one("0704", append(binary.BigEndian.AppendUint16([]byte{0, 1, 0}, uint16(len(body))), body...), "tlv-long")
 				}
 			}
 		}
@@ -331,6 +357,11 @@ func c03Ext(c *Ctx, tailA, tailB []byte) {
 		if ans == "panic" {
 			c.Violate(Violation{Signature: sig("C03/ext-panic-" + kind), What: "extension handler panicked on an exact-capacity content",
 				Input: base + " -", Observed: ans, Required: "ok ... or no"})
+		}
+		if ans == "hang" {
+			c.Violate(Violation{Signature: "C03/hang/ext-" + kind, What: "extension handler did not return (call abandoned)",
+				Input: base + " -", Observed: ans, Required: "returns promptly"})
+			return
 		}
 		var prev string
 		for i, tail := range [][]byte{tailA[:1], tailB[:1], tailA, tailB} {
